@@ -3,6 +3,21 @@
 import json, os, sys
 HERE = os.path.dirname(os.path.abspath(__file__))
 CLAIMED = {
+ "C06": ("model_checking",
+         "explicit-state BFS over create/copy/remove/re-create histories with caller-supplied identifiers on the real library",
+         "All histories over creations (fresh uid, uid of a live entity of the same or another kind, uid of a removed entity), copies within and across workspaces (uid free or taken in the target), removals and re-opens up to the stated depth: no identifier twice among live entities or types (listings, tree, file), a refused reuse leaves live tree and file digests unchanged, lookups return the single owner, same-workspace copies get fresh identifiers for entity, children and property groups, cross-workspace copies keep every identifier that is free in the target, one type per object/group class.",
+         "Bounded (depth, caps); reuse of the uid of a removed entity may be refused or honoured.",
+         "DESIGN.md §4 C06"),
+ "C09": ("model_checking",
+         "explicit-state BFS on the real library; per-node digests of the file image before/after the last operation of every history compared with a footprint computed from the reference model",
+         "For every reachable state of the tree exploration and every single mutating call applied to it, the set of file nodes whose attributes / datasets / link names / type / property-group block changed must lie inside the footprint the statement allows; for every state an open(r+)+close without mutation must change no digest.",
+         "Bounded (depth, caps); digests are semantic (values, names), not byte layout; concatenated storage is covered in C04.",
+         "DESIGN.md §4 C09"),
+ "C11": ("model_checking",
+         "explicit-state BFS over histories x exit modes (crash points between operations) on the real library; h5py open-object counting, closed-file probes",
+         "For every history prefix (= crash point) and each of eight ways of leaving the workspace (with-block normal exit, explicit close, exception raised in the block, library refusal escaping the block, fetch_active_workspace in same / other mode, from read-only, from closed): the file is valid and equals the reference model of the completed operations, the h5py open-object count returns to baseline, every file-needing getter of previously obtained entities raises Geoh5FileClosedError or serves exactly what the file holds, and re-opening (same object, second Workspace) restores the same content.",
+         "Bounded (depth, caps); crash points are Python exceptions between operations (power loss out of scope by the property text).",
+         "DESIGN.md §4 C11"),
  "C01": ("model_checking",
          "explicit-state BFS over operation histories on the real library; differential oracle live-vs-reopen plus lock-step reference model",
          "Every history of the tree alphabet up to the stated depth from several scenes (incl. already re-opened ones), two uid orders, two handle policies, with GC and re-open points as deviation-bounded pseudo-operations: the live snapshot taken immediately before the final close must equal the snapshot of a fresh read-only opening, and must equal a boring reference model (nothing lost, duplicated or resurrected).",
